@@ -452,9 +452,11 @@ def check_pseudo(ctx, eng):
             if 'not ' + RESP in conds and 'not ' + TRAIL in conds:
                 if '_RESPONSE_ONLY_HEADERS' in last:
                     clauses['resp-in-req'] = True
-                if '_CONNECT_REQUEST_ONLY_HEADERS' in last and any(
+                if '_CONNECT_REQUEST_ONLY_HEADERS' in last and (any(
                         "b'CONNECT'" in c and ('!=' in c or 'not' in c)
-                        for c in conds):
+                        for c in conds) or any(
+                        c.startswith('not ') and c[4:] in f2.params and
+                        _flag_is_connect(eng, f2, c[4:]) for c in conds)):
                     clauses['connect'] = True
             # the required-field test written out at the use site: refusal
             # when neither spelling of the name is in the set
@@ -506,6 +508,29 @@ def check_pseudo(ctx, eng):
                                 'not (bytes_header in header_set)'}
     ctx.ob('ORD.clause', f3.qual, 'required field missing => refusal', ok,
            'ProtocolError iff neither spelling is in the set', node=f3.node)
+
+
+def _flag_is_connect(eng, fi, pname):
+    """Every call of fi passes `<method> == b'CONNECT'` for the flag."""
+    idx = fi.params.index(pname)
+    n = 0
+    for g in eng.m.funcs.values():
+        for c in ast.walk(g.node):
+            if not (isinstance(c, ast.Call) and
+                    isinstance(c.func, ast.Name) and c.func.id == fi.name and
+                    getattr(c, '_func', None) is g):
+                continue
+            n += 1
+            a = c.args[idx] if idx < len(c.args) else None
+            for k in c.keywords:
+                if k.arg == pname:
+                    a = k.value
+            if not (isinstance(a, ast.Compare) and len(a.ops) == 1 and
+                    isinstance(a.ops[0], ast.Eq) and any(
+                        isinstance(x, ast.Constant) and x.value == b'CONNECT'
+                        for x in [a.left] + a.comparators)):
+                return False
+    return n > 0
 
 
 def _is_seen_set(fi, p, term):
@@ -567,12 +592,41 @@ def flags_on_path(eng, p):
             if t[0] == 'isinstance' and t[1][0] == 'sub':
                 out.append((t[1][1], e.obj))
         elif names and is_builder_call(e, names) and e.d.get('args'):
-            out.append((e.args[0], e.get('result')))
+            a0 = e.args[0]
+            if a0[0] == 'sub' and a0[2] == T.C(0):
+                a0 = a0[1]      # handed the first event: events[0]
+            out.append((a0, e.get('result')))
     return out
 
 
 def is_builder_call(e, names):
     return cm.is_call_to(e, *sorted(names))
+
+
+def _first_event_arg_ok(eng, fi, pname):
+    """Every call of the flags builder passes `<list>[0]` for `pname`."""
+    idx = fi.params.index(pname) - (1 if fi.params[:1] == ['self'] else 0)
+    n = 0
+    for g in eng.m.funcs.values():
+        for c in ast.walk(g.node):
+            if not (isinstance(c, ast.Call) and
+                    getattr(c, '_func', None) is g):
+                continue
+            f = c.func
+            nm = f.id if isinstance(f, ast.Name) else (
+                f.attr if isinstance(f, ast.Attribute) else None)
+            if nm != fi.name:
+                continue
+            n += 1
+            a = c.args[idx] if idx < len(c.args) else None
+            for k in c.keywords:
+                if k.arg == pname:
+                    a = k.value
+            if not (isinstance(a, ast.Subscript) and
+                    isinstance(a.slice, ast.Constant) and
+                    a.slice.value == 0):
+                return False
+    return n > 0
 
 
 def _client_arg_ok(eng, fi, pname):
@@ -632,9 +686,13 @@ def _check_flags_in(ctx, eng, fi):
         steps = [e.get('result') for _, e, _ in cm.process_inputs(p)]
         for k, classes in want.items():
             t = kw.get(k)
-            if not (t and t[0] == 'isinstance' and set(t[2]) == classes and
-                    t[1][0] == 'sub' and t[1][2] == T.C(0) and
-                    (t[1][1][0] == 'p' or t[1][1] in steps)):
+            subj_ok = bool(t) and t[0] == 'isinstance' and (
+                (t[1][0] == 'sub' and t[1][2] == T.C(0) and
+                 (t[1][1][0] == 'p' or t[1][1] in steps)) or
+                # the builder is handed the first event itself
+                (t[1][0] == 'p' and t[1][1] in fi.params and
+                 _first_event_arg_ok(eng, fi, t[1][1])))
+            if not (subj_ok and set(t[2]) == classes):
                 good = False
                 detail = '%s is %s' % (k, cm.show0(t) if t else None)
         ic = kw.get('is_client', T.NONE)
